@@ -120,6 +120,12 @@ Outcome run_forked(const std::function<Outcome()> &f)
   o.out      = "crash";
   size_t pos = se.find("ERROR: ");
   o.detail   = pos == std::string::npos ? ("status " + std::to_string(status)) : se.substr(pos, 160);
+  size_t adr = o.detail.find(" on address");  // keep the report kind, drop addresses (run-dependent)
+  if (adr != std::string::npos)
+  {
+    size_t rd = o.detail.find("READ of size");
+    o.detail  = o.detail.substr(0, adr) + (rd == std::string::npos ? "" : " (READ past the block)");
+  }
   for (auto &ch : o.detail)
     if (ch == '\n' || ch == '"' || ch == '\\')
       ch = ' ';
